@@ -43,6 +43,9 @@ pub enum SOp {
     SetPartAgain { node: u8, part: u8 },
     /// collector `to` takes every key/bootstrap witness of `from` one by one
     Merge { from: u8, to: u8 },
+    /// node builds its byte-preserving copy from the body bytes alone (`new_from_body_bytes`: a signer that is
+    /// sent only what it has to sign); it holds no witnesses and no auxiliary data, the body and its hash are the original's
+    LoadFromBody { node: u8 },
     /// node `to` receives an in-memory copy (clone) of the object node `from` holds - a wallet that keeps
     /// what it loaded while a signing component works on a copy. From then on the two are separate parties
     HandCopy { from: u8, to: u8 },
@@ -168,7 +171,9 @@ fn gen(seed: u64, tier: Tier) -> Case {
         ops.push(match r.below(15) {
             0 => SOp::LoadOriginal { node, hex: r.chance(1, 2) },
             1 => {
-                if r.chance(1, 2) {
+                if r.chance(1, 4) {
+                    SOp::LoadFromBody { node }
+                } else if r.chance(1, 2) {
                     SOp::LoadFromParts { node }
                 } else {
                     SOp::LoadOriginal { node, hex: r.chance(1, 2) }
@@ -317,6 +322,8 @@ struct NodeState {
     added_boots: BTreeSet<Vec<u8>>,
     /// auxiliary bytes the node itself put in place of the original ones (set_auxiliary_data)
     aux_override: Option<Vec<u8>>,
+    /// the node (or the node it got its message from) started from the body bytes alone: no auxiliary data, valid
+    body_only: bool,
 }
 
 fn plain(b: &[u8]) -> Vec<u8> {
@@ -338,14 +345,14 @@ fn check_node(step: usize, id: u8, ns: &NodeState, f: &Facts, out: &mut Outcome)
     if ns.tx.transaction_hash().to_bytes() != f.hash.to_vec() {
         out.violate("C04.tx_hash", "hash_is_not_blake2b_of_original_body", format!("step {} node {}: transaction_hash() != blake2b256(original body bytes)", step, id));
     }
-    let aux_expected: Option<Vec<u8>> = ns.aux_override.clone().or_else(|| f.aux.clone());
+    let aux_expected: Option<Vec<u8>> = ns.aux_override.clone().or_else(|| if ns.body_only { None } else { f.aux.clone() });
     if ns.tx.raw_auxiliary_data() != aux_expected {
         if std::env::var("C04_DEBUG").is_ok() {
             eprintln!("original aux: {}\nreturned aux: {}", f.aux.as_ref().map(hex::encode).unwrap_or_default(), ns.tx.raw_auxiliary_data().map(hex::encode).unwrap_or_default());
         }
         out.violate("C04.aux_bytes", "raw_auxiliary_data_differs", format!("step {} node {}: raw_auxiliary_data() differs from the original span", step, id));
     }
-    if ns.tx.is_valid() != f.is_valid {
+    if ns.tx.is_valid() != (f.is_valid || ns.body_only) {
         out.violate("C04.is_valid", "is_valid_changed", format!("step {} node {}", step, id));
     }
     let bytes = ns.tx.to_bytes();
@@ -564,7 +571,7 @@ fn execute(c: &Case) -> Outcome {
                     if nodes[*node as usize].is_some() {
                         out.count("fault.F6_duplicate_delivery_of_original", 1);
                     }
-                    nodes[*node as usize] = Some(NodeState { tx, base: f.clone(), added_vkeys: BTreeSet::new(), added_boots: BTreeSet::new(), aux_override: None });
+                    nodes[*node as usize] = Some(NodeState { tx, base: f.clone(), added_vkeys: BTreeSet::new(), added_boots: BTreeSet::new(), aux_override: None, body_only: false });
                     out.nontrivial = true;
                 }
                 Err(exec::Res::Panic(p)) => {
@@ -583,7 +590,7 @@ fn execute(c: &Case) -> Outcome {
                     match r {
                         Ok(tx) => {
                             out.count("c04.loaded_from_parts", 1);
-                            nodes[*node as usize] = Some(NodeState { tx, base: f.clone(), added_vkeys: BTreeSet::new(), added_boots: BTreeSet::new(), aux_override: None });
+                            nodes[*node as usize] = Some(NodeState { tx, base: f.clone(), added_vkeys: BTreeSet::new(), added_boots: BTreeSet::new(), aux_override: None, body_only: false });
                             out.nontrivial = true;
                         }
                         Err(exec::Res::Panic(_)) => out.count("panics_observed", 1),
@@ -617,7 +624,8 @@ fn execute(c: &Case) -> Outcome {
                     match (load(&msg, *hex), facts(&msg)) {
                         (Ok(tx), Some(base)) => {
                             let aux_override = src.aux_override.clone();
-                            nodes[*to as usize] = Some(NodeState { tx, base, added_vkeys: BTreeSet::new(), added_boots: BTreeSet::new(), aux_override })
+                            let body_only = src.body_only;
+                            nodes[*to as usize] = Some(NodeState { tx, base, added_vkeys: BTreeSet::new(), added_boots: BTreeSet::new(), aux_override, body_only })
                         }
                         (Err(e), _) if !relayed => out.violate("C04.reload", "own_serialization_rejected", format!("step {}: node {} cannot load what node {} serialized: {}", step, to, from, e)),
                         _ => {}
@@ -747,10 +755,25 @@ fn execute(c: &Case) -> Outcome {
                     }
                 }
             }
+            SOp::LoadFromBody { node } => {
+                let b = f.body.clone();
+                match exec::guard(|| csl::FixedTransaction::new_from_body_bytes(&b)) {
+                    Ok(mut tx) => {
+                        out.count("c04.loaded_from_body_bytes", 1);
+                        // telling the copy what it already says changes nothing
+                        tx.set_is_valid(tx.is_valid());
+                        let base = Facts { body: f.body.clone(), hash: f.hash, aux: None, is_valid: true, ws_fields: vec![], vkeys: BTreeSet::new(), boots: BTreeSet::new() };
+                        nodes[*node as usize] = Some(NodeState { tx, base, added_vkeys: BTreeSet::new(), added_boots: BTreeSet::new(), aux_override: None, body_only: true });
+                        out.nontrivial = true;
+                    }
+                    Err(exec::Res::Panic(_)) => out.count("panics_observed", 1),
+                    Err(_) => out.count("c04.artefact_rejected_by_decoder", 1),
+                }
+            }
             SOp::HandCopy { from, to } => {
                 if from != to {
                     if let Some(src) = &nodes[*from as usize] {
-                        let copy = NodeState { tx: src.tx.clone(), base: src.base.clone(), added_vkeys: src.added_vkeys.clone(), added_boots: src.added_boots.clone(), aux_override: src.aux_override.clone() };
+                        let copy = NodeState { tx: src.tx.clone(), base: src.base.clone(), added_vkeys: src.added_vkeys.clone(), added_boots: src.added_boots.clone(), aux_override: src.aux_override.clone(), body_only: src.body_only };
                         nodes[*to as usize] = Some(copy);
                         out.count("c04.in_memory_copies_handed_over", 1);
                     }
@@ -803,6 +826,7 @@ fn execute(c: &Case) -> Outcome {
             SOp::SetPartAgain { .. } => 11,
             SOp::Merge { .. } => 10,
             SOp::HandCopy { .. } => 12,
+            SOp::LoadFromBody { .. } => 13,
         });
         if !out.violations.is_empty() {
             break;
